@@ -2,7 +2,7 @@
 # usage: tools/try_seeded.sh <patch.diff> <ID> [<ID>...] : runs the quick checks against the patched /repo
 p="$1"; shift
 for id in "$@"; do
-  out=$(tools/with_patch.sh "$p" ./check "$id" --tier quick 2>&1); rc=$?
+  out=$(VERIF_NO_EVIDENCE=1 tools/with_patch.sh "$p" ./check "$id" --tier quick 2>&1); rc=$?
   echo "== $id rc=$rc $(echo "$out" | grep -c '^VIOLATION') violation line(s); $(echo "$out" | grep -E 'TOOL-ERROR' | head -1)"
   echo "$out" | grep -A1 '^VIOLATION' | head -4
 done
